@@ -325,7 +325,7 @@ RepNext == \E c \in Comps : FatalLock(c) \/ FatalUnlock(c)
 ExtShutdown ==
   /\ Env("shutdown", "")
   /\ shutReq' = (shutReq \/ state \in {"Running", "Starting"})
-  /\ o' = OExtShutdown(o, state, state, FALSE)
+  /\ o' = OExtShutdownEnd(OExtShutdownBegin(o, 0, state), 0, state, FALSE)
   /\ UNCHANGED <<pc, i, mode, state, gen, fs, rmu, fpc, ftg, ctxDone, sigReg, sigQ, wbuf, wblk, wclosed,
                  openA, openB, apend, sdoneG, stopErr, nfail>>
 ExtCtx ==
